@@ -162,3 +162,45 @@ def run(F, R):
         R.check(found is not None, "R09.7", "spec-rule-unimplemented:" + spec.split(" ")[0], cr.where(), "%s -> %s" % (spec, found),
                 "specification rule '%s' has no implementing construct (no Visitor in the Strict chain, no parser error): documents "
                 "violating it are accepted" % spec)
+    extra_rules(F, R)
+
+
+def extra_rules(F, R):
+    from factlib import param_deps
+    from common import comparisons
+    R.rule("R09.8", "OverlappingFieldsCanBeMerged compares the argument lists of two same-key fields symmetrically: besides walking the first field's arguments it "
+                    "compares the two `arguments.len()` (or walks both lists), otherwise extra arguments on the later field go unnoticed")
+    ao = F.one(r"async_graphql::validation::rules::overlapping_fields_can_be_merged::\{impl#\d+\}::add_output$", kind="fn")
+    lens = [c for c in ao.calls() if c.callee and re.search(r"vec::\{impl#\d+\}::len$", c.callee) and any(k == "field" and ".arguments" in x for k, x in trace(ao, c.args[0])[0])]
+    cmps = [x for x in comparisons(ao) if x[5] is not None and x[1] in ("Ne", "Eq")]
+    sym = False
+    for (bb, op, a, b2, d, tt, ft) in cmps:
+        oa, pa = trace(ao, a)
+        ob, pb = trace(ao, b2)
+        if any(p in lens for p in pa) and any(p in lens for p in pb):
+            sym = True
+    loops_over_args = [c for c in ao.calls() if c.callee and c.callee.endswith("::next") and c.bb in ao.loop_blocks()]
+    R.check(sym or len(loops_over_args) >= 2, "R09.8", "add_output:arguments-compared-symmetrically", ao.where(), "arguments.len() of both fields compared",
+            "only the earlier field's arguments are checked against the later field: `{ add(a:1) add(a:1, b:2) }` is accepted as mergeable")
+
+    R.rule("R09.9", "oneOf input values: is_valid_input_value rejects unless the object has exactly one entry — the count compared with 1 is the length of the whole "
+                    "object, not of a filtered view")
+    iv = F.one(r"async_graphql::validation::utils::is_valid_input_value$", kind="fn")
+    ok = False
+    n = 0
+    for (bb, op, a, b2, d, tt, ft) in comparisons(iv):
+        if tt is None:
+            continue
+        ka, kb = iv.kint(a), iv.kint(b2)
+        if op in ("Ne", "Eq") and (ka == 1 or kb == 1):
+            side = b2 if ka == 1 else a
+            o, passed = trace(iv, side)
+            if any(p.callee and p.callee.endswith("::len") for p in passed):
+                n += 1
+                src = [p for p in passed if p.callee and p.callee.endswith("::len")][0]
+                ty = src.argtys[0] if src.argtys else ""
+                ok = ok or ("indexmap::IndexMap<" in ty or "Vec<&" in ty or "Vec<" in ty) and not any(p.callee and re.search(r"::(filter|count|filter_map)$", p.callee) for p in passed)
+            if any(p.callee and re.search(r"::count$", p.callee) for p in passed):
+                n += 1
+    R.check(ok and n == 1, "R09.9", "is_valid_input_value:oneof-exactly-one-entry", iv.where(), "`values.len() != 1` on the unfiltered entries",
+            "the oneOf check does not compare the total number of entries with 1: `{a: 1, b: null}` passes validation although it has two entries")
